@@ -1,5 +1,84 @@
 import Ptn.C16.Model
-/-! Line-protocol handler for the C16 model (core Lean only). -/
+/-! Line-protocol handler for C16 (core Lean only).  Identifiers travel hex-encoded (bytes of the
+Python string; `-` is the empty identifier), so that the model works on the real strings.
+
+  struct <r> <root> <id>:<kid>,<kid>… …   → the TTNDO built by `from_ttns(root_id = r)`: for every node
+                                            in dict order `<id>^<parent|->:<kid>,<kid>…`, or `error`
+  order <suffix> <id> <id> …              → `ttndo_contraction_order`: identifiers ending with the suffix
+                                            (`-` when there is none)
+-/
 namespace Ptn.C16
-def handle (args : List String) : String := "bad-op"
+
+def hexVal (c : Char) : Option Nat :=
+  if '0' ≤ c ∧ c ≤ '9' then some (c.toNat - '0'.toNat)
+  else if 'a' ≤ c ∧ c ≤ 'f' then some (c.toNat - 'a'.toNat + 10)
+  else none
+
+def unhexAux : List Char → Option Ident
+  | [] => some []
+  | a :: b :: rest =>
+    match hexVal a, hexVal b, unhexAux rest with
+    | some x, some y, some r => some (Char.ofNat (16 * x + y) :: r)
+    | _, _, _ => none
+  | _ => none
+
+def unhex (s : String) : Option Ident :=
+  if s = "-" then some [] else if s = "" then none else unhexAux s.toList
+
+def hexDigit (n : Nat) : Char :=
+  if n < 10 then Char.ofNat ('0'.toNat + n) else Char.ofNat ('a'.toNat + n - 10)
+
+def hex (s : Ident) : String :=
+  if s.isEmpty then "-" else String.ofList (s.flatMap fun c => [hexDigit (c.toNat / 16), hexDigit (c.toNat % 16)])
+
+def parseEntry (s : String) : Option (Ident × List Ident) :=
+  match s.splitOn ":" with
+  | [a, b] =>
+    match unhex a with
+    | none => none
+    | some x =>
+      if b = "" then some (x, []) else
+        match (b.splitOn ",").mapM unhex with
+        | some l => some (x, l)
+        | none => none
+  | _ => none
+
+/-- rebuild the ordered tree from the child table (fuel = number of entries; `none` on a missing entry) -/
+def buildTree (tbl : List (Ident × List Ident)) : Nat → Ident → Option (Tree Ident)
+  | 0, _ => none
+  | fuel + 1, i =>
+    match tbl.find? (·.1 == i) with
+    | none => none
+    | some (_, ks) =>
+      match ks.mapM (buildTree tbl fuel) with
+      | none => none
+      | some ts => some (.node i ts)
+
+def showNet (net : Net Ident) : String :=
+  " ".intercalate (net.order.map fun x =>
+    hex x ++ "^" ++ (match net.parent x with | none => "-" | some p => hex p) ++ ":" ++
+      ",".intercalate ((net.children x).map hex))
+
+def handle (args : List String) : String :=
+  match args with
+  | "struct" :: r :: root :: entries =>
+    match unhex r, unhex root, entries.mapM parseEntry with
+    | some r, some root, some tbl =>
+      if (tbl.map (·.1)).eraseDups.length ≠ tbl.length then "bad-op" else
+      match buildTree tbl (tbl.length + 1) root with
+      | none => "bad-op"
+      | some t =>
+        if t.ids.length ≠ tbl.length then "bad-op" else
+        match fromTtns ketId braId r t with
+        | none => "error"
+        | some net => showNet net
+    | _, _, _ => "bad-op"
+  | "order" :: suffix :: ids =>
+    match unhex suffix, ids.mapM unhex with
+    | some sfx, some l =>
+      let o := contractionOrder sfx l
+      if o.isEmpty then "-" else " ".intercalate (o.map hex)
+    | _, _ => "bad-op"
+  | _ => "bad-op"
+
 end Ptn.C16
